@@ -819,7 +819,10 @@ package yqlib
 //@   noframe
 //@   requires p != nil && nodeList(matchingNodes) && p.encoder != nil && p.printerWriter != nil && p.treeNavigator != nil
 //@   ensures @never-resets {C19} implies(old(p.printedMatches), p.printedMatches)
+//@   at PrintLeadingContent: assert @the-encoder-is-told-this-nodes-leading-content {C18} arg2 == mappedDoc.LeadingContent
+//@   at printNode: assert @every-node-is-preceded-by-its-own-leading-content {C18} arg1 == mappedDoc && calls(PrintLeadingContent) == calls(printNode) + 1
 //@   loop 1:
+//@     invariant @leading-content-told-once-per-node {C18} calls(PrintLeadingContent) == calls(printNode)
 //@     invariant @nodes nodeList(matchingNodes)
 //@     invariant @never-resets {C19} implies(old(p.printedMatches), p.printedMatches)
 //@     invariant @position (el == nil && iter() == len(matchingNodes)) || (el != nil && elList(el) == matchingNodes && elIdx(el) == iter())
